@@ -11,23 +11,41 @@ From OIDC Require Export Lib Base64 C02_Jws C01_Verifier C02_Ground.
 (* access token and its real SHA-256 / SHA-384 / SHA-512 digests (hash oracle) *)
 Record atoken := mkAT { at_value : string; at_256 : list nat; at_384 : list nat; at_512 : list nat }.
 
+(* one call on a reused verifier *)
+Record istep := mkIStep {
+  is_tok : token; is_mid : middle; is_at : option atoken; is_now0 : Z; is_now1 : Z
+}.
+
 Inductive input :=
-| IIDToken (v : verifier) (ks : keyset) (t : token) (m : middle) (atk : option atoken) (now0 now1 : Z).
+| IIDToken (v : verifier) (ks : keyset) (t : token) (m : middle) (atk : option atoken) (now0 now1 : Z)
     (* at = None: rp.VerifyIDToken; Some: rp.VerifyTokens.  [now0,now1] brackets the call. *)
+| IIDTokenSeq (v : verifier) (ks : keyset) (steps : list istep).
+    (* ONE rp.IDTokenVerifier (and the one key set behind it) used for several
+       calls, VerifyIDToken and VerifyTokens mixed, with different ID tokens and
+       access tokens *)
 
 Inductive observed :=
 | OOut (o : outcome)
+| OSeq (l : list outcome)
 | OPanic.
 
 Definition digest_of (a : atoken) (h : hkind) : list nat :=
   match h with H256 => at_256 a | H384 => at_384 a | H512 => at_512 a end.
 Definition H_case (a : atoken) (h : hkind) (_ : string) : list nat := digest_of a h.
 
+Definition model_step (v : verifier) (ks : keyset) (t : token) (m : middle) (atk : option atoken) (now0 : Z) : outcome :=
+  match atk with
+  | None => verify_id_token sym_verify v ks t m now0
+  | Some a => verify_tokens sym_verify (H_case a) v ks t m (at_value a) now0
+  end.
+
+(* the verifier keeps nothing between calls: claims, at_hash, access token and
+   signature algorithm of one call are no input of the next *)
 Definition model (i : input) : observed :=
   match i with
-  | IIDToken v ks t m None now0 _ => OOut (verify_id_token sym_verify v ks t m now0)
-  | IIDToken v ks t m (Some a) now0 _ =>
-      OOut (verify_tokens sym_verify (H_case a) v ks t m (at_value a) now0)
+  | IIDToken v ks t m atk now0 _ => OOut (model_step v ks t m atk now0)
+  | IIDTokenSeq v ks steps =>
+      OSeq (map (fun s => model_step v ks (is_tok s) (is_mid s) (is_at s) (is_now0 s)) steps)
   end.
 
 (* ---------------- the property, from its text ---------------- *)
@@ -113,24 +131,44 @@ Definition at_hash_must_accept (atk : option atoken) (c : claims) (alg : string)
              end)
   end.
 
-Definition spec (i : input) (o : observed) : bool :=
-  match i, o with
-  | IIDToken v ks t (MidOk bytes c) atk now0 now1, OOut (Accept c' alg) =>
+(* the answer to ONE call, judged from that call's own token, access token and clock *)
+Definition spec_step (v : verifier) (ks : keyset) (t : token) (m : middle) (atk : option atoken)
+           (now0 now1 : Z) (o : outcome) : bool :=
+  match m, o with
+  | MidOk bytes c, Accept c' alg =>
       claims_eqb c' c                                   (* claims returned unchanged *)
       && claims_sound v c now0 now1
       && sig_genuine (v_algs v) ks t bytes && (alg =s sig_alg t)
       && at_hash_ok atk c alg
-  | IIDToken v ks t (MidOk bytes c) atk now0 now1, OOut (Reject _) =>
+  | MidOk bytes c, Reject _ =>
       negb (claims_margin v c now0 now1
             && sig_complete (v_algs v) ks t bytes
             && at_hash_must_accept atk c (sig_alg t))
-  | IIDToken _ _ _ _ _ _ _, OOut (Reject _) => true
+  | _, Reject _ => true
+  | _, _ => false
+  end.
+
+(* a reused verifier: every answer must be right for ITS call, whatever was
+   presented before (no claim, at_hash or verification result carried over) *)
+Fixpoint spec_seq (v : verifier) (ks : keyset) (steps : list istep) (outs : list outcome) : bool :=
+  match steps, outs with
+  | [], [] => true
+  | s :: r, o :: ro =>
+      spec_step v ks (is_tok s) (is_mid s) (is_at s) (is_now0 s) (is_now1 s) o && spec_seq v ks r ro
+  | _, _ => false
+  end.
+
+Definition spec (i : input) (o : observed) : bool :=
+  match i, o with
+  | IIDToken v ks t m atk now0 now1, OOut o => spec_step v ks t m atk now0 now1 o
+  | IIDTokenSeq v ks steps, OSeq l => spec_seq v ks steps l
   | _, _ => false
   end.
 
 Definition obs_eqb (a b : observed) : bool :=
   match a, b with
   | OOut x, OOut y => outcome_eqb x y
+  | OSeq x, OSeq y => list_eqb outcome_eqb x y
   | OPanic, OPanic => true
   | _, _ => false
   end.
@@ -141,6 +179,8 @@ Definition path (i : input) (o : observed) : nat :=
   | IIDToken _ _ _ _ atk _ _, OOut (Accept c _) =>
       match atk with None => 30 | Some _ => if c_at_hash c =s "" then 31 else 32 end
   | IIDToken _ _ _ _ _ _ _, OOut o => outcome_code o
+  | IIDTokenSeq _ _ _, OSeq l =>   (* number of accepting calls of the sequence *)
+      100 + Nat.min 9 (List.length (filter (fun o => match o with Accept _ _ => true | _ => false end) l))
   | _, _ => 0
   end.
 
